@@ -30,6 +30,11 @@ GENS = [
       dict(quick=30, thorough=500), ["C07"]),
     G("c07b", ["NewNode", "DialPending", "AuthorizePending", "Enroll", "Rogue", "Dial"], 9,
       dict(quick=15, thorough=300), ["C07"], sw=True, unix=True),
+    # composition: enrolment, node credential rotation, removal of the old / new record, root replacement, dials with current and previous credentials
+    G("sys1", ["Enroll", "RotateNode", "RotateNode", "DialPrev", "Dial", "RemovePrev", "Remove", "Reinit", "ConnectHonest"], 12,
+      dict(quick=20, thorough=500), ["C02", "C07"], nidl=True),
+    G("sys2", ["Enroll", "RotateNode", "DialPrev", "Dial", "RemovePrev", "Remove", "ConnectNear"], 12,
+      dict(quick=12, thorough=300), ["C02", "C07"], nidl=False, sw=True),
     G("c16a", ["Enroll", "Dial", "Dial", "ConnectHonest", "Remove"], 9, dict(quick=40, thorough=600), ["C16"]),
     G("c16b", ["Enroll", "Dial", "ConnectHonest", "ConnectNear"], 9, dict(quick=20, thorough=400), ["C16"], nidl=True, sw=True),
     G("c14a", ["Enroll", "Malformed", "Malformed", "Malformed", "Dial"], 12, dict(quick=40, thorough=700), ["C14"]),
